@@ -137,8 +137,9 @@ def gen_shared(ctx, rng):
     samplers = []
     for sid in range(nS):
         kind = rng.choice(["plain", "static", "static", "interval"])
+        tns = [f["tn"] for d in h["dicts"] for f in d if f.get("form") in ("table", "stored")]
         samplers.append(dict(sid=sid, static=kind != "plain", interval=rng.choice([1, 2, 3]) if kind == "interval" else None,
-                             n=rng.choice([1, 2, 3])))
+                             n=tns[0] if tns else rng.choice([1, 2, 3])))       # stored tables have one row per point
     for c in h["conds"]:
         sid = 0 if rng.random() < 0.7 else rng.randrange(nS)
         c.update(sid=sid, space=space, n=samplers[sid]["n"], static=samplers[sid]["static"], share={})
@@ -160,6 +161,7 @@ def run_shared(case, only=None, given=None):
     tp, torch = C["tp"], C["torch"]
     NextSampler = _next_sampler_cls()
     sink = []
+    tables = []
     pydicts, originals = [], []
     for d in case["dicts"]:
         fns = {}
@@ -168,7 +170,7 @@ def run_shared(case, only=None, given=None):
                 di, fi = spec["same_as"]
                 fns[spec["name"]] = pydicts[di][case["dicts"][di][fi]["name"]]
             else:
-                fns[spec["name"]] = build_fn(C, spec, sink)
+                fns[spec["name"]] = build_entry(C, spec, sink, tables)
         pydicts.append(fns)
         originals.append(dict(fns))
     inners, outers, recs = {}, {}, {}
@@ -238,7 +240,7 @@ def line_shared(case):
                                  tok_table(prow(op["fresh"]))]))
         else:
             ops.append(f"e {op['cid']} {tok_table(prow(op['fresh']))}")
-    dicts = lst(case["dicts"], lambda d: lst(d, lambda f: f"{f['name']} {'wrapped' if f.get('wrap') else 'raw'} {fn_tok(f)}"))
+    dicts = lst(case["dicts"], lambda d: lst(d, entry_tok))
     return f"runs {dicts} {lst(ops)}"
 
 
